@@ -2,6 +2,7 @@
 convert() (executed on injected ASTs whose statement contents are opaque)."""
 import copy
 import itertools
+import re
 
 from coco.b09 import compiler, elements as E, error_handler, visitors as V
 from tx import opaque
@@ -130,14 +131,16 @@ def wiring():
 
     def run():
         res = []
-        for filt, zref in itertools.product((False, True), (False, True)):
+        for filt, zref, prefix in itertools.product((False, True), (False, True), (False, True)):
             opaque.reset()
-            text = convert_ast(prog1(zref), add_standard_prefix=False, filter_unused_linenum=filt)
+            text = convert_ast(prog1(zref), add_standard_prefix=prefix, filter_unused_linenum=filt)
+            if prefix:
+                text = text[text.index("⟦s0@"):] if "⟦s0@" in text and not re.search(r"(?m)^0 ", text) else text[re.search(r"(?m)^0 ", text).start():] if re.search(r"(?m)^0 ", text) else text
             labs = labels_of(text)
             referenced = {20, 30} | ({0} if zref else set())
             exp = sorted(referenced) if filt else sorted({10, 20, 30, 40} | ({0} if zref else set()))
             stm = [t for t in ("s0", "s1", "t", "s3", "s4") if str(mark(t, 0))[:-3] not in text and ("⟦%s@" % t) not in text]
-            res.append(ob("wiring/labels,filter=%d,zero_referenced=%d" % (filt, zref), sorted(labs) == exp and not stm, dict(labels=exp, statements_lost=[]),
+            res.append(ob("wiring/labels,filter=%d,zero_referenced=%d%s" % (filt, zref, ",prefix" if prefix else ""), sorted(labs) == exp and not stm, dict(labels=exp, statements_lost=[]),
                           dict(labels=sorted(labs), statements_lost=stm),
                           "with filtering exactly the referenced labels stay; without it only an unreferenced line 0 loses its label; no statement disappears"))
         # refusals
